@@ -337,10 +337,26 @@ def clm_extension_strip(F, S):
     ca = F.fn(CLM + "::CreateArchive", nparams=2)
     inst = CLM + "::CreateArchive#extension-strip"
     req = "extensions are removed with XFile::ChangeFileExtension(name, \"\"), never by cutting the string at a '.'"
-    cf = find_calls(F, ca, lambda nd: (nd.get("fq") or "").endswith("XFile::ChangeFileExtension"), depth=2)
-    cuts = find_calls(F, ca, lambda nd: nd["k"] == "CXXMemberCallExpr" and nd.get("fname") in ("rfind", "find_last_of", "find", "substr", "erase", "resize")
-                      and (nd.get("mrec") or "").startswith("std::basic_string"), depth=2)
-    cuts = [c for c in cuts if c.owner.key != ca.key or True]
+    # the code that derives the names: CreateArchive, the helpers it calls on itself / statically, and the lambdas written in them
+    from ..through import closure, with_lambdas
+    code = []
+    for f in closure(F, ca, depth=2, same_class_only=False) if "same_class_only" in closure.__code__.co_varnames else closure(F, ca, depth=2):
+        for g in with_lambdas(F, f):
+            if g not in code:
+                code.append(g)
+
+    class _S:       # (a call site in that code, with the interface the verdict below needs)
+        def __init__(self, f, nd):
+            self.f, self.node = f, nd
+
+        def args(self):
+            return [self.f.term(a) for a in self.node.get("args", [])]
+
+        def outer_id(self):
+            return ca.body
+    cf = [_S(f, nd) for f in code for nd in f.nodes if nd["k"] in CALLS and (nd.get("fq") or "").endswith("XFile::ChangeFileExtension")]
+    cuts = [_S(f, nd) for f in code for nd in f.nodes if nd["k"] == "CXXMemberCallExpr" and (nd.get("mrec") or "").startswith("std::basic_string")
+            and nd.get("fname") in ("rfind", "find_last_of", "find", "substr", "erase", "resize")]
     if not cf and not cuts:
         raise AnalysisBroken("ClmFile::CreateArchive: how extensions are stripped was not recognised")
     good = len(cf) >= 1 and all(len(c.args()) == 2 and c.args()[1] in (("str", b""), ("ctor", "std::basic_string<char>", ())) or
